@@ -9,14 +9,15 @@ is replaced by NondetSet, whose order is chosen by the solver.
 from pycaption import SRTReader, WebVTTReader, MicroDVDReader, SCCReader, SAMIReader
 from pycaption.base import Caption, CaptionNode, CaptionList
 import pycaption.sami as sm
-from harness.csbuild import snap_set
+from harness.csbuild import snap_set, mutable_ids
 
 DOCS = {
     "srt": ("1\n00:00:01,000 --> 00:00:02,000\nfoo\n", "1\n00:00:03,000 --> 00:00:04,000\nbar\nbaz\n\n2\n00:00:05,000 --> 00:00:06,000\nqux\n"),
     "vtt": ("WEBVTT\n\n00:01.000 --> 00:02.000\nfoo\n", "WEBVTT\n\n00:03.000 --> 00:04.000 align:left\nbar\nbaz\n\n00:05.000 --> 00:06.000\nqux\n"),
     "mdvd": ("{25}{50}foo\n", "{75}{100}bar|baz\n{125}{150}qux\n"),
-    "scc": ("Scenarist_SCC V1.0\n\n00:00:01:00\t9420 9470 c162 942f\n\n00:00:05:00\t942c\n",
-            "Scenarist_SCC V1.0\n\n00:00:11:00\t9420 9454 c1c2 9470 c162 942f\n\n00:00:15:00\t942c\n"),
+    # first document ends on row 14, the second one starts with a preamble for row 15 (the row right below)
+    "scc": ("Scenarist_SCC V1.0\n\n00:00:01:00\t9420 94d0 c162 942f\n\n00:00:05:00\t942c\n",
+            "Scenarist_SCC V1.0\n\n00:00:11:00\t9420 9470 c1c2 942f\n\n00:00:15:00\t942c\n\n00:00:16:00\t9420 9454 c1c2 9470 c162 942f\n\n00:00:19:00\t942c\n"),
 }
 
 
@@ -207,3 +208,90 @@ def public_sami_lang_order(p0, p1, first, second):
         if got != want:
             return f"PYTHONHASHSEED={seed}: languages {got}, order of first appearance {want}"
     return ""
+
+
+# --- hash seeds: which stylesheet class gives a language its layout -------------------------------------
+def sami_lang_layout_order(p0: int, p1: int, swap: bool) -> str:
+    """
+    pre: 0 <= p0 <= 2 and 0 <= p1 <= 1
+    post: _ == ""
+    """
+    from harness.ndset import nondet_module, PICKS
+    nd, sites = nondet_module(sm)
+    if sites == 0:
+        return ""  # the module creates no set
+    styles = {"p": {"text-align": "center"}}
+    a, b = ("encc", "right"), ("enalt", "left")
+    if swap:
+        a, b = b, a
+    styles[a[0]] = {"lang": "en-US", "text-align": a[1]}
+    styles[b[0]] = {"lang": "en-US", "text-align": b[1]}
+    styles["note"] = {"color": "red"}
+    seen = []
+
+    class P:
+        def feed(self, content):
+            return content, styles, ["en-US"]
+
+    class R(nd.SAMIReader):
+        @staticmethod
+        def _get_sami_parser_class():
+            return P
+
+        @staticmethod
+        def _get_xml_parser_class():
+            return lambda content, features=None: None
+
+        def _translate_lang(self, language, soup, layout):
+            seen.append(layout)
+            return CaptionList([Caption(0, 1, [CaptionNode.create_text(language)])])
+    outs = []
+    for picks in ([p0, p1], []):
+        PICKS[0] = picks
+        del seen[:]
+        try:
+            R().read("x")
+        finally:
+            PICKS[0] = []
+        outs.append(seen[0].alignment.horizontal if seen and seen[0] is not None and seen[0].alignment else None)
+    return "" if outs[0] == outs[1] else "the language layout depends on the iteration order of a set (hash seed)"
+
+
+# --- results of the markup readers share no mutable object (an in-place edit of one cannot reach another) --
+def _markup_results():
+    import warnings
+    warnings.simplefilter("ignore")
+    from pycaption.dfxp import DFXPReader
+    dfxp = ('<tt xml:lang="en" xmlns="http://www.w3.org/ns/ttml" xmlns:tts="http://www.w3.org/ns/ttml#styling"><head><layout>'
+            '<region xml:id="r1" tts:origin="10%% 10%%" tts:extent="50%% 20%%"/></layout></head><body><div>'
+            '<p begin="1s" end="2s"%s>hello <span tts:fontStyle="italic">there</span></p><p begin="3s" end="4s">plain</p></div></body></tt>')
+    sami = ('<SAMI><HEAD><STYLE TYPE="text/css"><!-- P {margin-left: 10%%; text-align: center;} .ENCC {Name: English; lang: en-US;} --></STYLE></HEAD><BODY>'
+            '<SYNC start=1000><P class=ENCC%s>one</P></SYNC><SYNC start=3000><P class=ENCC>two</P></SYNC></BODY></SAMI>')
+    res = []
+    for variant in ('', ' region="r1"'):
+        res.append(("dfxp", DFXPReader().read(dfxp % variant)))
+    for variant in ('', ' style="text-align:right;"'):
+        res.append(("sami", SAMIReader().read(sami % variant)))
+    return res
+
+
+MARKUP_RESULTS = _markup_results()
+
+
+def markup_results_disjoint(i: int, j: int) -> str:
+    """
+    pre: 0 <= i < 4 and 0 <= j < 4 and i != j
+    post: _ == ""
+    """
+    a = b = None
+    k = 0
+    for kind, cs in MARKUP_RESULTS:
+        if k == i:
+            a = cs
+        if k == j:
+            b = cs
+        k += 1
+    ida = mutable_ids(a)
+    idb = mutable_ids(b)
+    shared = [t for oid, t in ida.items() if oid in idb]
+    return "" if not shared else "two results share mutable objects: " + ", ".join(sorted(set(shared)))
